@@ -11,6 +11,7 @@ import (
 	"runtime"
 	"sort"
 	"strings"
+	"unsafe"
 )
 
 // Hash is a 128-bit fingerprint lane pair.
@@ -148,6 +149,7 @@ type Pending struct {
 	Data      any  // shim-specific (channel cases, ...)
 	Idle      bool // enabled only when nothing else (no thread, no timer) is enabled
 	Quiet     bool // enabled when no thread is enabled (pending timers do not count): goes before the clock
+	NoHB      bool // the operation on Obj enters the causal hash chains but not the vector clocks (racy access)
 	pos       string
 }
 
@@ -199,6 +201,8 @@ func (s Status) String() string {
 
 // Exec is one execution.
 type Exec struct {
+	race         map[unsafe.Pointer]*raceCell
+	racyObj      map[unsafe.Pointer]*Obj
 	Epoch        uint64
 	threads      []*Thread
 	running      *Thread
@@ -487,7 +491,11 @@ func PointOp(p *Pending) {
 		}
 		t.tick()
 	}
-	if p.Obj != nil {
+	if p.Obj != nil && p.NoHB {
+		e.initObj(p.Obj, t)
+		t.chain = t.chain.MixH(p.Obj.H).Mix(HashString(p.Kind).A)
+		p.Obj.H = t.chain
+	} else if p.Obj != nil {
 		e.sync(t, p.Obj, HashString(p.Kind).A)
 	} else {
 		t.chain = t.chain.Mix(HashString(p.Kind).A)
